@@ -52,9 +52,11 @@ static void pass_to(int id)
 static int mutex_free(void *m, int forwhom)
 {
     int i;
+    (void) forwhom;
     for (i = 0; i < 32; i++)
     {
-        if (owners[i].m == m && owners[i].owner >= 0 && owners[i].owner != forwhom)
+        /* the library's mutexes are not recursive: a thread that asks for a mutex it holds itself never gets it */
+        if (owners[i].m == m && owners[i].owner >= 0)
         {
             return 0;
         }
